@@ -23,6 +23,7 @@ partial def val (s : Sexp) : Val :=
 
 def err? : Sexp → Option Err
   | .list [.atom "u", n] => n.nat?.map .u
+  | .list [.atom "b", n] => n.nat?.map .b
   | .atom "typeerr" => some .typeerr
   | .atom "syncRefused" => some .syncRefused
   | .list (.atom "other" :: _) => some .other
@@ -55,8 +56,10 @@ partial def prog? : Sexp → Option Prog
   | .list [.atom "ret", t] => t.nat?.map .ret
   | .list [.atom "res", t] => t.nat?.map .res
   | .list [.atom "raise", e] => e.nat?.map .raise
+  | .list [.atom "raiseB", e] => e.nat?.map .raiseB
   | .list [.atom "reraise"] => some .reraise
-  | .list [.atom "yld", y, k, h] => do some (.yld (← ys? y) (← prog? k) (← prog? h))
+  | .list [.atom "yld", y, k, h] => do some (.yld false (← ys? y) (← prog? k) (← prog? h))
+  | .list [.atom "yldB", y, k, h] => do some (.yld true (← ys? y) (← prog? k) (← prog? h))
   | .list [.atom "sync", c, p, k, h] => do some (.sync (← call? c) (← prog? p) (← prog? k) (← prog? h))
   | _ => none
 partial def ys? : Sexp → Option Ys
